@@ -10,6 +10,7 @@ import (
 	"io"
 	"net"
 	"sync"
+	"sync/atomic"
 	"time"
 )
 
@@ -270,6 +271,10 @@ func (s Status) String() string {
 	return [...]string{"parked", "closed", "failed", "wedged", "spinning"}[s]
 }
 
+// WedgeSeen is set once any Await in this process gave up: a goroutine of the code under test is probably left
+// behind, later cases of this process would be judged in a polluted process.
+var WedgeSeen atomic.Bool
+
 // Watchdog is the (very long) time Await waits before declaring a wedge.
 var Watchdog = 60 * time.Second
 
@@ -308,6 +313,7 @@ func (c *Conn) await(wantClose bool) Status {
 			return Parked
 		case expired:
 			c.EverWedged = true
+			WedgeSeen.Store(true)
 			return Wedged
 		}
 		c.cond.Wait()
